@@ -175,9 +175,16 @@ func judgeStall(d1, d2 []gInfo) (string, string) {
 		if g.lib && (strings.HasPrefix(st, "sync.Mutex.Lock") || strings.HasPrefix(st, "sync.RWMutex")) {
 			mutexWait = firstLibFrame(g.stack)
 		}
-		if g.lib && strings.Contains(g.stack, "verif/harness/sim.") && (strings.HasPrefix(st, "sleep") || strings.HasPrefix(st, "select") || strings.HasPrefix(st, "chan receive")) {
-			// a harness callback called from the library that is waiting for virtual time
-			if strings.Index(g.stack, "verif/harness/sim.") < strings.Index(g.stack, libPrefix) {
+		if g.lib && strings.Contains(g.stack, "verif/harness/sim.") && strings.Index(g.stack, "verif/harness/sim.") < strings.Index(g.stack, libPrefix) {
+			// a harness callback called from the library that is waiting for virtual time (a callback that
+			// only waits for a channel - a blocking OnPromote waiting for its context - would not be woken
+			// by the clock and does not count)
+			// Only user callbacks count (OnPromote / OnDemote / HealthChecker / Metrics / Logger): the library
+			// never holds one of its mutexes across a store operation (checked by reading the code; a
+			// store operation that sleeps out its latency is the normal state of a frozen bubble).
+			isCallback := strings.Contains(g.stack, ".registerCallbacks.func") || strings.Contains(g.stack, "sim.(*health).") ||
+				strings.Contains(g.stack, "sim.(*metrics).") || strings.Contains(g.stack, "sim.(*logger).")
+			if isCallback && (strings.HasPrefix(st, "sleep") || strings.Contains(g.stack, ".sleepI(") || strings.Contains(g.stack, ".sleepOrCtx(")) {
 				sleepingCallback = true
 			}
 		}
